@@ -19,13 +19,12 @@
 (* Methods that take no record are followed by the caller's own update of  *)
 (* the record (C08_Defs!CallerRecord: what the documentation promises).    *)
 (*                                                                         *)
-(* Dev : named deviations from a sound record arithmetic.  "sample_info"    *)
-(* and "measure_outcome" are what the code still does (known findings      *)
-(* KF-C08-2 / KF-C08-4); "swap_both", "measure_last", "tnorm_flag" are what *)
-(* it did before the fix: commits 9081c46d / fe668b26 / fb49fbf5.  The main *)
-(* configurations run with Dev = {} (the fixed code without the two open   *)
-(* findings), the self-test configurations enable one deviation each and   *)
-(* must FAIL, the simulation for replay runs the code as it is now.        *)
+(* Dev : named deviations from a sound record arithmetic = what the code   *)
+(* did before the fix: commits 9081c46d (swap_both), 6a956e6e (sample_info),*)
+(* fe668b26 (measure_last), 761424b3 (measure_outcome), fb49fbf5            *)
+(* (tnorm_flag).  The main configurations and the simulation for replay    *)
+(* run with Dev = {} (the code as it is); the self-test configurations     *)
+(* enable one deviation each and must FAIL.                                *)
 (***************************************************************************)
 EXTENDS C08_Defs, SequencesExt, Json
 
